@@ -21,6 +21,14 @@ Oracle reading (bracketed where the statement is ambiguous):
     documents), len, truthiness, equality with a list parameter.
 A whole-query exception is loud, hence allowed by the property (counted per mode and class).
 
+Besides single operations, ~18% of the queries contain several JSON path expressions at once: a tuple in the select
+list, a conjunction or disjunction of conditions, or conditions plus an order_by key.  Equal parameter values share one
+external variable, and in 60% of these queries the further paths are siblings of the first one (same length, same
+parameters in the same positions, a different constant key/index), so that every expression must still read its own
+path.  The rows of a data set store the same objects with different key orders, and sub-document operands
+(`== {...}`, `!= Json(...)`, parameters) are written with their keys in yet another order (Python dict equality
+ignores order).  An order_by key is judged only where Python can order the present keys (all numbers / all strings).
+
 Deviation rules (known-finding discipline): a row that disagrees is re-evaluated with exactly one rule switched on;
 it is classified only if that rule reproduces Pony's answer for the row exactly.
 """
@@ -39,7 +47,8 @@ META = {
     'level_note': 'Trusted base: the ~150-line reference evaluator in this file, CPython json, and (for the CAST '
                   'deviation rule only) the sqlite3 module evaluating `CAST(? AS t) op ?`. SQLite library 3.40.1.',
     'rule': 'A case = (data set of 8 rows derived from one random base document + int/str/float arrays, operation '
-            'kind, path with constant and parameter keys/indexes incl. negative and missing ones, operand). '
+            'kind, path with constant and parameter keys/indexes incl. negative and missing ones, operand; or 2-3 such '
+            'path expressions combined in one query as tuple / and / or / order_by, sharing parameters). '
             'Fingerprint = operation kind + path shape (key classes, index signs, const/param) + operand type + '
             'per-row value-class vector; non-trivial if the reference answers of the rows are not all the same '
             '(a filter selects a proper non-empty subset of the rows, a value query yields at least two values).',
@@ -175,7 +184,7 @@ class SqlEval(object):
         if v is None or v is MISSING: return None
         if isinstance(v, bool): return int(v)
         if isinstance(v, int):
-            if not -2 ** 63 <= v < 2 ** 63: return NOREF     # JSON1 turns it into a REAL, the fallback raises
+            if not -2 ** 63 <= v < 2 ** 63: return float(v)  # JSON1 turns it into a REAL (the fallback raises: not judged)
             return v
         if isinstance(v, (float, str)): return v
         return jtext(v)
@@ -200,6 +209,19 @@ def eff(i, n):
 def expected(q, row, mode, rules, sqlev):
     """-> NOREF or list of admissible results for this row."""
     kind = q['kind']
+    if kind == 'multi':
+        parts = q['parts'][:-1] if q['comb'] == 'order' else q['parts']
+        subs = [expected(c, row, mode, rules, sqlev) for c in parts]
+        if any(x is NOREF for x in subs): return NOREF
+        combos = [()]
+        for x in subs: combos = [c + (v,) for c in combos for v in x][:64]
+        if q['comb'] == 'tuple':
+            out = []
+            for c in combos:
+                if c not in out: out.append(c)
+            return out
+        fn = any if q['comb'] == 'or' else all
+        return sorted({fn(c) for c in combos})
     if kind.startswith('arr_'):
         arr = row[q['attr']]
         n = len(arr)
@@ -326,7 +348,9 @@ def vary(rng, node, hetero, top=True):
             return gen_doc(rng, 1, 'list' if isinstance(node, dict) else 'dict')
     if isinstance(node, dict):
         out = {}
-        for k, v in node.items():
+        items = list(node.items())
+        if rng.random() < 0.6: rng.shuffle(items)           # rows store the same object with different key orders
+        for k, v in items:
             if rng.random() < 0.12: continue
             out[k] = vary(rng, v, hetero, False)
         return out
@@ -433,15 +457,88 @@ ARR_KINDS = ['arr_index', 'arr_index', 'arr_slice', 'arr_slice', 'arr_in', 'arr_
 
 def gen_query(rng, ds):
     q = gen_query0(rng, ds)
-    q['form_src'] = 'gen' if rng.random() < 0.75 else 'str'
+    q['form_src'] = 'gen' if rng.random() < 0.75 or (q['kind'] == 'multi' and q['comb'] == 'order') else 'str'
     return q
 
 
+def shuffled(rng, v):
+    """The same JSON value with the keys of every object written in another order."""
+    if isinstance(v, dict):
+        ks = list(v)
+        rng.shuffle(ks)
+        return {k: shuffled(rng, v[k]) for k in ks}
+    if isinstance(v, list): return [shuffled(rng, x) for x in v]
+    return v
+
+
+FILTER_KINDS = ('cmp', 'cmp', 'cmp', 'truth', 'contains', 'cmp_json', 'in_consts')
+VALUE_KINDS = ('val', 'val', 'val', 'len')
+
+
+def sibling_path(rng, ds, path, params):
+    """Another path of the same length with the same parameter positions (and values) that differs from `path` in a
+    constant element: a sibling key/index at that level of the base document, or an arbitrary one."""
+    consts = [j for j, isp in enumerate(params) if not isp]
+    if not consts: return None
+    j = rng.choice(consts)
+    cur = ds['base']
+    try:
+        for k in path[:j]: cur = cur[k]
+    except Exception: cur = None
+    if isinstance(cur, dict): cands = [k for k in cur if k != path[j]]
+    elif isinstance(cur, list): cands = [i for i in range(len(cur)) if i != path[j]]
+    else: cands = []
+    new = list(path)
+    if cands and rng.random() < 0.85: new[j] = rng.choice(cands)
+    else: new[j] = (rng.choice([k for k in KEYS_PLAIN if k != path[j]]) if isinstance(path[j], str)
+                    else rng.choice([i for i in (0, 1, 2, 3) if i != path[j]]))
+    return new
+
+
+def gen_multi(rng, ds):
+    """One query with several JSON path expressions: a tuple in the select list, a conjunction/disjunction of
+    conditions, or a condition plus an order_by key.  Half of the time the further expressions are siblings of the
+    first one: same length, same parameters in the same positions, different constant keys/indexes."""
+    comb = rng.choice(('tuple', 'tuple', 'and', 'and', 'or', 'order'))
+    n = rng.choice((2, 2, 3))
+    kinds = VALUE_KINDS if comb == 'tuple' else FILTER_KINDS
+    first = gen_json_q(rng, ds, rng.choice(kinds))
+    related = rng.random() < 0.6 and len(first['path']) >= 2
+    if related:
+        # at least one parameter and one constant position
+        m = first['params']
+        if all(m) or not any(m):
+            j = rng.randrange(len(m))
+            m = [(i == j) for i in range(len(m))] if not any(m) else [i != j for i in range(len(m))]
+            first['params'] = m
+    parts = [first]
+    while len(parts) < n:
+        kind = rng.choice(kinds)
+        if comb == 'order' and len(parts) == n - 1: kind = 'val'
+        c = None
+        if related:
+            sp = sibling_path(rng, ds, first['path'], first['params'])
+            if sp is not None: c = gen_json_q(rng, ds, kind, path=sp, params=list(first['params']))
+        if c is None and comb == 'order' and kind == 'val':
+            c = gen_json_q(rng, ds, 'val', path=gen_path(rng, ds, want=(int, float, str), minlen=1))
+        parts.append(c or gen_json_q(rng, ds, kind))
+    if comb == 'order' and parts[-1]['kind'] != 'val':
+        parts[-1] = gen_json_q(rng, ds, 'val', path=parts[-1]['path'], params=parts[-1]['params'])
+    return {'kind': 'multi', 'comb': comb, 'parts': parts, 'related': related}
+
+
 def gen_query0(rng, ds):
-    if rng.random() < 0.3: return gen_arr_query(rng, ds)
-    kind = rng.choice(JSON_KINDS)
+    r = rng.random()
+    if r < 0.27: return gen_arr_query(rng, ds)
+    if r < 0.45: return gen_multi(rng, ds)
+    return gen_json_q(rng, ds, rng.choice(JSON_KINDS))
+
+
+def gen_json_q(rng, ds, kind, path=None, params=None):
     q = {'kind': kind}
-    if kind in ('contains', 'len'):
+    if path is not None:
+        q['path'] = list(path)
+    elif kind in ('contains', 'len'):
         q['path'] = gen_path(rng, ds, want=(list, dict), minlen=0)
     elif kind == 'cmp_json':
         q['path'] = gen_path(rng, ds, want=(list, dict), minlen=1)
@@ -450,7 +547,7 @@ def gen_query0(rng, ds):
     else:
         q['path'] = gen_path(rng, ds, minlen=1)
     # which path steps are passed as parameters
-    q['params'] = [rng.random() < 0.3 for _ in q['path']]
+    q['params'] = list(params) if params is not None else [rng.random() < 0.3 for _ in q['path']]
     if kind == 'cmp':
         q['op'] = rng.choice(('==', '==', '!=', '<', '<=', '>', '>='))
         q['operand'] = gen_scalar_operand(rng, ds, q['path'])
@@ -463,7 +560,8 @@ def gen_query0(rng, ds):
             c = json.loads(json.dumps(c))
             if isinstance(c, list): c[rng.randrange(len(c))] = gen_scalar(rng)
             else: c[rng.choice(list(c))] = gen_scalar(rng)
-        q['operand'] = c
+        # the operand is written with its object keys in another order than any stored document has them
+        q['operand'] = shuffled(rng, json.loads(json.dumps(c)))
         q['op'] = rng.choice(('==', '!='))
         q['form'] = rng.choice(('Json', 'Json', 'param') if isinstance(c, list) else ('literal', 'Json', 'param'))
     elif kind == 'contains':
@@ -529,13 +627,38 @@ def gen_arr_query(rng, ds):
 # ----------------------------------------------------------------------------------------------------------------
 # query text
 
+def same_value(a, b):
+    return type(a) is type(b) and canon(a) == canon(b)
+
+
 def render(q):
-    """-> (query source, locals dict, is_filter)."""
+    """-> (query source, locals dict, is_filter, suffix).  Equal parameter values share one name, so several path
+    expressions of one query naturally use the same external variable."""
     loc = {}
     def param(v, prefix='x'):
+        for name, old in loc.items():
+            if name.startswith(prefix) and same_value(old, v): return name
         name = '%s%d' % (prefix, len(loc) + 1)
         loc[name] = v
         return name
+    if q['kind'] == 'multi':
+        parts = [render_part(c, param) for c in q['parts']]
+        comb = q['comb']
+        if comb == 'tuple':
+            return '(p.id, %s) for p in P' % ', '.join(t for t, f in parts), loc, False, ''
+        if comb in ('and', 'or'):
+            return 'p.id for p in P if %s' % (' %s ' % comb).join('(%s)' % t for t, f in parts), loc, True, ''
+        if comb == 'order':
+            cond = ' and '.join('(%s)' % t for t, f in parts[:-1])
+            return 'p for p in P if %s' % cond, loc, True, '.order_by(lambda p: %s)' % parts[-1][0]
+        raise AssertionError(comb)
+    text, is_filter = render_part(q, param)
+    if is_filter: return 'p.id for p in P if %s' % text, loc, True, ''
+    return '(p.id, %s) for p in P' % text, loc, False, ''
+
+
+def render_part(q, param):
+    """-> (expression text, is it a condition)."""
     kind = q['kind']
     if kind.startswith('arr_'):
         a = 'p.%s' % q['attr']
@@ -544,48 +667,44 @@ def render(q):
             if x[0] == 'attr': return 'p.%s' % x[1]
             if x[0] == 'p': return param(x[1], 'i')
             return repr(x[1])
-        if kind == 'arr_index': return '(p.id, %s[%s]) for p in P' % (a, operand(q['index'])), loc, False
-        if kind == 'arr_index_cmp':
-            return 'p.id for p in P if %s[%s] %s %r' % (a, operand(q['index']), q['op'], q['operand']), loc, True
-        if kind == 'arr_slice':
-            return '(p.id, %s[%s:%s]) for p in P' % (a, operand(q['start']), operand(q['stop'])), loc, False
-        if kind == 'arr_in':
-            return 'p.id for p in P if %s %s %s' % (operand(q['item']), 'not in' if q['neg'] else 'in', a), loc, True
+        if kind == 'arr_index': return '%s[%s]' % (a, operand(q['index'])), False
+        if kind == 'arr_index_cmp': return '%s[%s] %s %r' % (a, operand(q['index']), q['op'], q['operand']), True
+        if kind == 'arr_slice': return '%s[%s:%s]' % (a, operand(q['start']), operand(q['stop'])), False
+        if kind == 'arr_in': return '%s %s %s' % (operand(q['item']), 'not in' if q['neg'] else 'in', a), True
         if kind == 'arr_subset':
             items = repr(q['items']) if q['form'] == 'c' else param(q['items'], 'z')
-            return 'p.id for p in P if %s %s %s' % (items, 'not in' if q['neg'] else 'in', a), loc, True
-        if kind == 'arr_len': return '(p.id, len(%s)) for p in P' % a, loc, False
-        if kind == 'arr_truth': return 'p.id for p in P if %s%s' % ('not ' if q['neg'] else '', a), loc, True
-        if kind == 'arr_eq':
-            return 'p.id for p in P if %s %s %s' % (a, q['op'], param(q['operand'], 'z')), loc, True
+            return '%s %s %s' % (items, 'not in' if q['neg'] else 'in', a), True
+        if kind == 'arr_len': return 'len(%s)' % a, False
+        if kind == 'arr_truth': return '%s%s' % ('not ' if q['neg'] else '', a), True
+        if kind == 'arr_eq': return '%s %s %s' % (a, q['op'], param(q['operand'], 'z')), True
         raise AssertionError(kind)
     e = 'p.data' + ''.join('[%s]' % (param(k, 'k') if isp else repr(k)) for k, isp in zip(q['path'], q['params']))
-    if kind == 'val': return '(p.id, %s) for p in P' % e, loc, False
+    if kind == 'val': return e, False
     if kind == 'cmp':
         c = q['operand']
-        op = q['op']
         cs = param(c, 'c') if q.get('operand_param') else repr(c)
-        return 'p.id for p in P if %s %s %s' % (e, op, cs), loc, True
+        return '%s %s %s' % (e, q['op'], cs), True
     if kind == 'cmp_json':
         c = q['operand']
         if q['form'] == 'literal': cs = repr(c)
         elif q['form'] == 'Json': cs = 'Json(%r)' % (c,)
         else: cs = param(c, 'j')
-        return 'p.id for p in P if %s %s %s' % (e, q['op'], cs), loc, True
+        return '%s %s %s' % (e, q['op'], cs), True
     if kind == 'contains':
         ks = param(q['key'], 'key') if q['key_param'] else repr(q['key'])
-        return 'p.id for p in P if %s %s %s' % (ks, 'not in' if q['neg'] else 'in', e), loc, True
-    if kind == 'len': return '(p.id, len(%s)) for p in P' % e, loc, False
-    if kind == 'truth': return 'p.id for p in P if %s%s' % ('not ' if q['neg'] else '', e), loc, True
+        return '%s %s %s' % (ks, 'not in' if q['neg'] else 'in', e), True
+    if kind == 'len': return 'len(%s)' % e, False
+    if kind == 'truth': return '%s%s' % ('not ' if q['neg'] else '', e), True
     if kind == 'in_consts':
-        return 'p.id for p in P if %s %s (%s,)' % (e, 'not in' if q['neg'] else 'in',
-                                                   ', '.join(repr(c) for c in q['consts'])), loc, True
-    if kind == 'concat': return '(p.id, %s | %s) for p in P' % (e, param(q['operand'], 'j')), loc, False
+        return '%s %s (%s,)' % (e, 'not in' if q['neg'] else 'in', ', '.join(repr(c) for c in q['consts'])), True
+    if kind == 'concat': return '%s | %s' % (e, param(q['operand'], 'j')), False
     raise AssertionError(kind)
 
 
 def shape_fp(q):
     kind = q['kind']
+    if kind == 'multi':
+        return ['multi', q['comb'], q.get('related'), q.get('form_src'), [shape_fp(c) for c in q['parts']]]
     if kind.startswith('arr_'):
         def o(x):
             if x is None: return None
@@ -642,7 +761,7 @@ class Env(object):
                     P(id=r['id'], data=json.loads(json.dumps(r['data'])), ia=list(r['ia']), sa=list(r['sa']),
                       fa=list(r['fa']), n=r['n'], m=r['m'])
 
-    def run_query(self, mode, src, loc, form='gen'):
+    def run_query(self, mode, src, loc, form='gen', suffix=''):
         """form 'gen': the query is a real generator expression (compiled Python, decompiled by Pony; numeric literals
         incl. negative ones are constants); form 'str': query text with globals/locals (there `-1` is an external
         expression, i.e. a parameter)."""
@@ -654,9 +773,11 @@ class Env(object):
             with orm.db_session:
                 if form == 'gen':
                     g.update(loc)
-                    res = eval('select(%s)[:]' % src, g)
+                    res = eval('select(%s)%s[:]' % (src, suffix), g)
                 else:
+                    assert not suffix
                     res = orm.select(src, g, dict(loc))[:]
+                res = [r.id if isinstance(r, m['P']) else r for r in res]
                 res = [tuple(json.loads(json.dumps(x)) if isinstance(x, (list, dict)) else x for x in r)
                        if isinstance(r, tuple) else r for r in res]
             err = None
@@ -676,13 +797,16 @@ class Env(object):
 # judging
 
 def judge_query(ctx, env, sqlev, ds, q, counts_only=False):
-    src, loc, is_filter = render(q)
-    kind = q['kind']
+    src, loc, is_filter, suffix = render(q)
+    kind = q['kind'] if q['kind'] != 'multi' else 'multi_' + q['comb']
     verdicts = {}
     form = q.get('form_src', 'gen')
     ctx.count('queries.form.' + form)
+    if kind.startswith('multi'):
+        ctx.count('multi.queries')
+        if q.get('related'): ctx.count('multi.sibling_paths_sharing_params')
     for mode in ('json1', 'py'):
-        res, err, sqls = env.run_query(mode, src, loc, form)
+        res, err, sqls = env.run_query(mode, src, loc, form, suffix)
         for s in sqls:
             for f in FUNC_RE.findall(s):
                 ctx.count('sqlfunc.%s.%s' % (mode, f))
@@ -711,7 +835,7 @@ def judge_query(ctx, env, sqlev, ds, q, counts_only=False):
             extra = set()
             for t in res:
                 if t[0] in got: extra.add(('dup', t[0]))
-                got[t[0]] = t[1]
+                got[t[0]] = t[1] if len(t) == 2 else tuple(t[1:])
             for r in ds['rows']:
                 if r['id'] not in got: extra.add(('absent', r['id']))
         rows_out = []
@@ -736,11 +860,11 @@ def judge_query(ctx, env, sqlev, ds, q, counts_only=False):
             explained = None
             for rule in ALL_RULES:
                 e2 = expected(q, r, mode, frozenset((rule,)), sqlev)
-                if e2 is not NOREF and len(e2) == 1 and match(g, e2):
+                if e2 is not NOREF and e2 != exp and match(g, e2):      # the rule changes the answer set so that it admits Pony's
                     explained = (rule,); break
             if explained is None:
                 e3 = expected(q, r, mode, frozenset(ALL_RULES), sqlev)
-                if e3 is not NOREF and len(e3) == 1 and match(g, e3):
+                if e3 is not NOREF and e3 != exp and match(g, e3):
                     need = tuple(rule for rule in ALL_RULES
                                  if not match(g, _or_empty(expected(q, r, mode, frozenset(set(ALL_RULES) - {rule}), sqlev))))
                     explained = need or None
@@ -751,8 +875,40 @@ def judge_query(ctx, env, sqlev, ds, q, counts_only=False):
             else:
                 vec.append('V')
                 rows_out.append({'verdict': 'violation', 'w': w})
+        if kind == 'multi_order' and not any(ro['verdict'] == 'violation' for ro in rows_out):
+            oc = order_check(q['parts'][-1], ds, res, mode)
+            ctx.count('order_check.' + oc[0])
+            if oc[0] in ('finding', 'violation'):
+                w = {'query': src + suffix, 'locals': loc, 'mode': mode, 'row': {'id': None, 'data': None}, 'pony': res,
+                     'admissible': oc[1], 'q': q, 'form': form}
+                rows_out.append({'verdict': oc[0], 'rules': (R_KEYESC,), 'w': w})
         verdicts[mode] = ('ok', vec, rows_out, refvals)
     return src, loc, is_filter, verdicts
+
+
+def order_check(part, ds, ids, mode):
+    """order_by(<json path>): the returned rows, read in order, must have non-decreasing keys.  Only judged when the
+    present keys are all numbers or all strings (Python can order those); absent/null keys are left out (their place is
+    SQL's choice), ties may come in any order."""
+    rows = {r['id']: r for r in ds['rows']}
+    def keys(rules):
+        out = []
+        for i in ids:
+            v = walk(rows[i]['data'], part['path'], mode, rules)
+            if v is NOREF: return None
+            if v is MISSING or v is None: continue
+            out.append(v)
+        return out
+    ks = keys(frozenset())
+    if ks is None: return ('noref', None)
+    if any(isinstance(v, int) and not isinstance(v, bool) and not -2 ** 53 <= v <= 2 ** 53 for v in ks): return ('noref', None)
+    num = all(isinstance(v, (int, float)) and not isinstance(v, bool) for v in ks)
+    txt = all(isinstance(v, str) for v in ks)
+    if len(ks) < 2 or not (num or txt): return ('noref', None)
+    if all(a <= b for a, b in zip(ks, ks[1:])): return ('agree', None)
+    k2 = keys(frozenset((R_KEYESC,)))
+    if k2 is not None and len(k2) < 2: return ('finding', ks)       # the path resolves to nothing under the listed rule
+    return ('violation', ks)
 
 
 def _or_empty(x):
@@ -774,7 +930,7 @@ def run_dataset(ctx, env, sqlev, rng, nqueries, sample=False):
         q = gen_query(rng, ds)
         src, loc, is_filter, verdicts = judge_query(ctx, env, sqlev, ds, q)
         vclasses = []
-        if not q['kind'].startswith('arr_'):
+        if not q['kind'].startswith('arr_') and q['kind'] != 'multi':
             vclasses = sorted({vclass(walk(r['data'], q['path'], 'py', ())) for r in ds['rows']})
         nontrivial = False
         for mode, v in verdicts.items():
@@ -936,6 +1092,10 @@ def run(ctx):
                  'arr_subset', 'arr_len', 'arr_truth', 'arr_eq', 'arr_index_cmp'):
         ctx.floor('rows.agree.' + kind, 250 * k)
     ctx.floor('pg_path.evaluated', 300)
+    for kind in ('multi_tuple', 'multi_and', 'multi_or', 'multi_order'):
+        ctx.floor('rows.agree.' + kind, 150 * k)
+    ctx.floor('multi.sibling_paths_sharing_params', 300 * k)
+    ctx.floor('order_check.agree', 3)
 
 
 def replay(ctx, witness):
